@@ -105,8 +105,78 @@ def _run_one(name, over, exhaustive, timeout, workdir):
     return r
 
 
+DEPTH_INVS = ["NoLimitHit", "WavesLinear", "FinishedOK"]
+
+
+def _run_depth(tier, workdir):
+    """C19 on the model: spec/PPGDepth.tla (size families, waves per call linear in the size)"""
+    maxn = "14" if tier == "thorough" else "10"
+    cfg = ("SPECIFICATION DSpec\nCONSTANTS\n  NJobs = %s\n  MaxN = %s\n"
+           '  Families = {"chain", "fanout", "fanin", "layers"}\n  GuardBase = 1500\n  GuardPerJob = 10\n'
+           "INVARIANTS %s\nCHECK_DEADLOCK FALSE\n" % (maxn, maxn, " ".join(DEPTH_INVS)))
+    key = hashlib.sha256((spec_hash() + cfg).encode()).hexdigest()[:16]
+    cdir = os.path.join(SCRATCH, "mc")
+    os.makedirs(cdir, exist_ok=True)
+    cache = os.path.join(cdir, "depth-%s.json" % key)
+    if os.path.exists(cache) and not os.environ.get("VERIF_NOCACHE"):
+        r = json.load(open(cache))
+        r["cached"] = True
+        return r
+    os.makedirs(workdir, exist_ok=True)
+    cfgp = os.path.join(workdir, "PPGDepth.cfg")
+    open(cfgp, "w").write(cfg)
+    md = os.path.join(workdir, "md-depth")
+    out = os.path.join(workdir, "PPGDepth.out")
+    env = dict(os.environ)
+    env["JAVA_TOOL_OPTIONS"] = "-Xss512m"
+    cmd = ["java", "-XX:+UseParallelGC", "-Xmx8g", "-cp", TLA_CP, "tlc2.TLC", "-workers", "8",
+           "-metadir", md, "-cleanup", "-noGenerateSpecTE", "-continue", "-config", cfgp, "PPGDepth.tla"]
+    t0 = time.time()
+    try:
+        with open(out, "w") as lf:
+            subprocess.run(cmd, cwd=SPEC, env=env, stdout=lf, stderr=subprocess.STDOUT, timeout=3600)
+    except subprocess.TimeoutExpired:
+        raise ToolError("TLC timed out on PPGDepth")
+    finally:
+        shutil.rmtree(md, ignore_errors=True)
+    txt = open(out, errors="replace").read()
+    m = re.search(r"(\d+) states generated, (\d+) distinct states found, (\d+) states left on queue", txt)
+    if not m:
+        raise ToolError("TLC failed on PPGDepth: " + txt[-1500:])
+    violated = sorted(set(re.findall(r"Invariant (\w+) is violated", txt)))
+    other = [l for l in re.findall(r"^Error: (.*)$", txt, re.M) if "Invariant" not in l and "behavior up to" not in l]
+    if other:
+        raise ToolError("TLC error in PPGDepth: " + other[0][:300])
+    r = {"config": "PPGDepth MaxN=%s" % maxn, "constants": {"MaxN": maxn}, "states_generated": int(m.group(1)),
+         "distinct_states": int(m.group(2)), "left_on_queue": int(m.group(3)), "depth": None,
+         "violated_invariants": ["C19"] if violated else [], "violated_names": violated,
+         "exhaustive": int(m.group(3)) == 0, "wall_s": round(time.time() - t0, 1), "cmd": " ".join(cmd[3:]), "cached": False}
+    if violated:
+        os.makedirs(REPLAYS, exist_ok=True)
+        rp = os.path.join(REPLAYS, "model-depth-%s.txt" % key)
+        open(rp, "w").write(txt[:2000000])
+        r["replay"] = rp
+    else:
+        os.remove(out)
+    json.dump(r, open(cache, "w"))
+    return r
+
+
 def run(prop, tier, workdir):
-    if prop not in INVS or os.environ.get("VERIF_NOMODEL"):
+    if os.environ.get("VERIF_NOMODEL"):
+        return {}
+    if prop == "C19":
+        r = _run_depth(tier, workdir)
+        log("model %s distinct=%d violated=%s %s" % (r["config"], r["distinct_states"], r.get("violated_names"),
+                                                     "(cached)" if r["cached"] else "%.0fs" % r["wall_s"]))
+        res = {"invariant": "NoLimitHit, WavesLinear, FinishedOK of spec/PPGDepth.tla",
+               "runs": [{k: r[k] for k in ("config", "constants", "distinct_states", "states_generated", "violated_invariants", "exhaustive", "wall_s", "cached")}],
+               "distinct_states": r["distinct_states"], "states_generated": r["states_generated"],
+               "exhaustive": r["exhaustive"], "violations": 1 if r["violated_invariants"] else 0, "cmd": r["cmd"]}
+        if r["violated_invariants"]:
+            res["replay"] = r["replay"]
+        return res
+    if prop not in INVS:
         return {}
     runs = []
     for name, over, ex, to in (THOROUGH if tier == "thorough" else QUICK):
